@@ -4,7 +4,7 @@
  *   build <dsl> <dump>                         build explicit nodes, validate (adds defaults)            -> ok <dump> | err Invalid   [impl only]
  *   merge <dsl> <T> <S> <opts> <api>           lyd_merge_siblings / _tree / _module (api 0/1/2)         -> ok <dump> <ptr>
  *   dup <dsl> <tree> <idx> <opts> <mode>       lyd_dup_single / _siblings / *_to_ctx (mode 0/1/2/3)     -> ok <dump> <idx-of-returned-node>
- *   mlaw <dsl> <T> <S> <opts>                  C14's merge laws evaluated on the implementation          -> ok <name>=<verdict>*     [impl only]
+ *   mlaw <dsl> <T> <S> <opts> <with-destruct>  C14's merge laws evaluated on the implementation          -> ok <name>=<verdict>*     [impl only]
  *   dlaw <dsl> <tree> <idx> <opts> <mode> <seed>   dup laws + independence script                       -> ok <name>=<verdict>*     [impl only]
  *   indep <dsl> <T> <S> <opts> <seed>          independence after a merge (edits / frees of either side) -> ok <name>=<verdict>*     [impl only]
  *   leakcheck                                                                                          -> ok <n>
@@ -166,18 +166,6 @@ is_canonical(const struct tp_schema *s, const struct lyd_node *t)
 }
 
 static int
-is_canonical_unused(const struct tp_schema *s, const struct lyd_node *t)
-{
-    char *d = dumps(s, t);
-    struct lyd_node *x = NULL;
-    LY_ERR r = load_tree(s, d, &x);
-
-    lyd_free_all(x);
-    free(d);
-    return r == LY_SUCCESS;
-}
-
-static int
 under_dupinst(const struct lyd_node *n)
 {
     for ( ; n; n = lyd_parent(n)) if (n->schema && lysc_is_dup_inst_list(n->schema)) return 1;
@@ -285,7 +273,7 @@ path_law(const struct tp_schema *s, struct lyd_node *from, struct lyd_node *othe
 }
 
 static void
-op_mlaw(const char *id, const struct tp_schema *s, const char *ttok, const char *stok, unsigned o)
+op_mlaw(const char *id, const struct tp_schema *s, const char *ttok, const char *stok, unsigned o, int with_destruct)
 {
     struct lyd_node *T = NULL, *S = NULL, *T1 = NULL, *T2 = NULL, *S2 = NULL, *E = NULL, *D = NULL, *Rc = NULL;
     char *ttext = vp_unhex(ttok, NULL), *stext = vp_unhex(stok, NULL);
@@ -316,9 +304,13 @@ op_mlaw(const char *id, const struct tp_schema *s, const char *ttok, const char 
     bad = path_law(s, T, S, T1, o, 2, &checked);
     fprintf(stdout, " keeps=%d checked=%d", bad, checked);
     /* consuming merge gives the same tree */
-    r = lyd_merge_siblings(&T2, S2, (uint16_t)(oc | LYD_MERGE_DESTRUCT));
-    S2 = NULL;
-    fprintf(stdout, " dmerge=%s", tp_errname(r));
+    if (with_destruct) {
+        r = lyd_merge_siblings(&T2, S2, (uint16_t)(oc | LYD_MERGE_DESTRUCT));
+        S2 = NULL;
+        fprintf(stdout, " dmerge=%s", tp_errname(r));
+    } else {
+        r = LY_ENOT;
+    }
     if (!r) {
         r2 = dumps(s, T2);
         fprintf(stdout, " destruct=%d dptr=%u dcanon=%d", !strcmp(r1, r2), nprev(T2), is_canonical(s, T2));
@@ -766,8 +758,8 @@ main(void)
             free(text);
         } else if (!strcmp(op, "merge") && r.ntok == 8) {
             op_merge(id, s, r.tok[4], r.tok[5], (unsigned)atoi(r.tok[6]), atoi(r.tok[7]));
-        } else if (!strcmp(op, "mlaw") && r.ntok == 7) {
-            op_mlaw(id, s, r.tok[4], r.tok[5], (unsigned)atoi(r.tok[6]));
+        } else if (!strcmp(op, "mlaw") && r.ntok == 8) {
+            op_mlaw(id, s, r.tok[4], r.tok[5], (unsigned)atoi(r.tok[6]), atoi(r.tok[7]));
         } else if (!strcmp(op, "indep") && r.ntok == 8) {
             op_indep(id, s, r.tok[4], r.tok[5], (unsigned)atoi(r.tok[6]), (unsigned)atoi(r.tok[7]));
         } else if (!strcmp(op, "dup") && r.ntok == 8) {
